@@ -252,7 +252,9 @@ ALL_GEN_COMMANDS = sorted(COMMAND_SWITCHES)
 def fval(x, j):
     s = 0.25 * (j + 1)
     for k, xk in enumerate(x):
-        s += (0.5 + 0.125 * j) * math.cos(0.7 * xk + 0.3 * k) + 0.0625 * (k + 1) * xk * xk
+        # the frequency alternates with output and dimension, so that different outputs have different anisotropy
+        # (refinement of "all outputs" and of "output 0" must then propose different points)
+        s += (0.5 + 0.125 * j) * math.cos((0.7 + 2.0 * ((j + k) % 2)) * xk + 0.3 * k) + 0.0625 * (k + 1) * xk * xk
     return s
 
 
